@@ -208,7 +208,45 @@ def check_structure(buf):
                 problems.append(f'image segment {i}: data length {im["data_length"]} != block-padded pixel size {want}')
             if im['NBPR'] * nppbh < im['NCOLS'] or im['NBPC'] * nppbv < im['NROWS']:
                 problems.append(f'image segment {i}: blocks do not cover the image')
+        elif im['IC'] == b'NM':
+            problems.extend(f'image segment {i}: {p}' for p in check_mask(buf, im, nppbh, nppbv))
     return problems, {'header': h, 'images': images, 'layout': layout}
+
+
+def check_mask(buf, im, nppbh, nppbv):
+    """IC=NM: the image data field starts with the mask table (MIL-STD-2500C table A-3(A)); returns problems"""
+    out = []
+    d0, dl = im['data_offset'], im['data_length']
+    b = buf[d0:d0 + dl]
+    if len(b) < 10:
+        return ['masked image data shorter than the fixed part of the mask table']
+    imdatoff = int.from_bytes(b[0:4], 'big')
+    bmrlnth = int.from_bytes(b[4:6], 'big')
+    tmrlnth = int.from_bytes(b[6:8], 'big')
+    tpxcdlnth = int.from_bytes(b[8:10], 'big')
+    nblocks = im['NBPR'] * im['NBPC']
+    per_band = im['IMODE'] == b'S'
+    nrec = nblocks * (im['bands'] if per_band else 1)
+    p = 10 + (tpxcdlnth + 7) // 8
+    if bmrlnth not in (0, 4) or tmrlnth not in (0, 4):
+        out.append(f'mask record lengths BMRLNTH={bmrlnth} TMRLNTH={tmrlnth} (must be 0 or 4)')
+        return out
+    bmr = [int.from_bytes(b[p + 4 * k:p + 4 * k + 4], 'big') for k in range(nrec)] if bmrlnth else None
+    p += bmrlnth * nrec + tmrlnth * nrec
+    if imdatoff != p:
+        out.append(f'IMDATOFF = {imdatoff} but the mask table occupies {p} bytes')
+    block_bytes = nppbh * nppbv * (im['NBPP'] // 8) * (1 if per_band else im['bands'])
+    if bmr is None:
+        present = nrec
+    else:
+        offs = sorted(set(o for o in bmr if o != 0xFFFFFFFF))
+        present = len(offs)
+        if offs != [k * block_bytes for k in range(present)]:
+            out.append(f'block mask offsets {offs[:6]}... are not the consecutive multiples of the block size {block_bytes}')
+    want = p + present * block_bytes
+    if dl != want:
+        out.append(f'data length {dl} != mask table {p} + {present} recorded blocks of {block_bytes} bytes = {want}')
+    return out
 
 
 def reassemble(images):
